@@ -35,6 +35,10 @@ def small_model(rng):
         m = models.nested([0.5, 0.8, 1.0][:rng.randint(1, 3)], [1.0, 0.0125, 1.0], level, air_sigma=rng.choice([0.0, 0.0, 0.2]))
         m["info"]["topology"] = "nested-air"
         return m
+    if r < 0.3:
+        # interface whose bounding-box centre is outside the enclosed volume (rejected as "not closed" before the fix)
+        m = gd.bowl_model(rng.choice([1, 1, 2]), rng.choice([1.0, 0.33]), inside_sphere=rng.random() < 0.5)
+        return m
     m = models.random_model(rng, level=1 if rng.random() < 0.3 else level)
     if m["info"]["topology"] == "split" and level == 0:
         pass
@@ -181,6 +185,7 @@ def expected_nested(m):
     if k == "nested": return True, "nested shells"
     if k == "inclusions": return (len(info.get("blobs", [])) <= 1), "%d sibling inclusion(s)" % len(info.get("blobs", []))
     if k == "split": return False, "split hemispheres"
+    if k == "bowl": return True, "a bowl-shaped shell (and its enclosing sphere)"
     return None, "?"
 
 def expected_domains(case):
@@ -226,6 +231,8 @@ def main(replay=None):
         # the witness of nested_classification_correct_refuted, replayed on every run
         wm = models.inclusions(1.0, [((0.45, 0, 0), 0.3, 1.0), ((-0.45, 0.1, 0), 0.3, 0.33)], 1.0, level=0); wm["info"]["topology"] = "inclusions"
         add(wm, "1.1", False, "base:inclusions", nprobes=10)
+        # the witness of the repaired defect (bounding-box centre outside the volume), on every run
+        add(gd.bowl_model(1, 1.0, False), "1.1", False, "base:bowl", nprobes=20)
         for b in range(nbase):
             m = small_model(rng)
             top = m["info"].get("topology", "?")
